@@ -680,12 +680,18 @@ static int reftable_reader_refs_for_indexed(struct reftable_reader *r,
 
 	/* Look through the reverse index. */
 	reftable_record_from_obj(&want_rec, &want);
+	reftable_record_from_obj(&got_rec, &got);
 	err = reader_seek(r, &oit, &want_rec);
+	if (err > 0) {
+		/* the ID sorts after every entry of the index: no refs */
+		iterator_set_empty(it);
+		err = 0;
+		goto done;
+	}
 	if (err != 0)
 		goto done;
 
 	/* read out the reftable_obj_record */
-	reftable_record_from_obj(&got_rec, &got);
 	err = iterator_next(&oit, &got_rec);
 	if (err < 0)
 		goto done;
